@@ -35,7 +35,8 @@ def gen(rng, k, tight=False):
     a = na * np.array([np.sin(ang0), np.cos(ang0)])
     b = nb * np.array([np.sin(ang0 + ang), np.cos(ang0 + ang)])
     zero = rng.uniform(40, 90, 2)
-    imax = 5 if tight else 3
+    far = (not tight) and k % 6 == 5   # far-out half-cell outliers: the relaxation is sqrt(|index|), not |index|
+    imax = 5 if tight else (6 if far else 3)
     grid = [(i, j) for i in range(-imax, imax + 1) for j in range(-imax, imax + 1)]
     while True:
         sel = rng.choice(len(grid), size=int(rng.integers(4, 25)), replace=False)
@@ -47,7 +48,11 @@ def gen(rng, k, tight=False):
     pts = zero + idx @ np.array([a, b]) + noise
     elev = rng.uniform(0.5, 3, len(idx))
     tol = float(rng.uniform(0.5, 1.2)) if tight else float(rng.uniform(1.0, 3.0))
+    if far:
+        tol = 0.8 * 0.5 * min(na, nb) / np.sqrt(imax + 0.5)
     min_weight = 0.3
+    if k % 4 == 1:
+        elev[0] = min_weight   # "elevation >= min_weight": equality is still strong enough
     nout = int(rng.integers(0, 7)) if k % 2 else 0
     nweak = int(rng.integers(0, 4)) if k % 3 else 0
     out_idx = []
@@ -55,6 +60,10 @@ def gen(rng, k, tight=False):
     for _ in range(nout):
         i, j = free[int(rng.integers(len(free)))]
         off = [(0.5, 0.5), (0.5, 0.0), (0.0, 0.5)][int(rng.integers(3))]
+        if far:
+            j0 = int(rng.integers(-1, 2))
+            (i, j), off = [((imax - 1, j0), (0.5, 0.0)), ((j0, imax - 1), (0.0, 0.5)),
+                           ((-imax, j0), (0.5, 0.0)), ((j0, -imax), (0.0, 0.5))][int(rng.integers(4))]
         out_idx.append((i + off[0], j + off[1]))
     outl = zero + np.array(out_idx).reshape(-1, 2) @ np.array([a, b])
     weak_idx = np.array([grid[int(rng.integers(len(grid)))] for _ in range(nweak)], dtype=np.float64).reshape(-1, 2)
